@@ -12,7 +12,7 @@ RULE = (
     "runner-drive acceptances of off-grid orders requested by scripted agents. Oracle in exact rational arithmetic "
     "on the float inputs. Case = one (tick, price, side) acceptance; distinct = that triple; non-trivial = the "
     "price is off the grid (exact test) or within 3 ulp of a grid point."
-    ' Since the seeded rounds: every 7th order is first offered to a second venue with another grid (refused there), off-grid time-0 prices with orders pegged exactly to get_market_price(), a pegged template and a placement-only opening session in the runner cases.'
+    ' Since the seeded rounds: every 7th order is first offered to a second venue with another grid (refused there), off-grid time-0 prices with orders pegged exactly to get_market_price(), a pegged template and a placement-only opening session in the runner cases; every other runner case has a price limit rule with off-grid band edges, and the price judged is the one handed to the market after the rule rewrote it.'
 )
 ASSUMPTIONS = [
     "slack: none when the tick is a power of two (the engine's division is exact); otherwise 4 ulp(max(price, tick)) "
@@ -25,12 +25,14 @@ REQUIRED = {
               "class/near_grid_ulp": 3000, "class/power_of_two_tick_exact": 5000, "class/runner_offgrid": 50,
               "class/non_builtin_bool_side_flag": 2000,
               "class/offered_to_another_venue_first_and_refused_there": 4000,
-              "class/pegged_to_the_published_market_price": 800},
+              "class/pegged_to_the_published_market_price": 800,
+              "class/runner_price_rewritten_by_a_rule_before_acceptance": 100},
     "thorough": {"acceptances": 1000000, "class/off_grid_buy": 100000, "class/off_grid_sell": 100000,
                  "class/on_grid": 100000, "class/near_grid_ulp": 50000, "class/power_of_two_tick_exact": 100000,
                  "class/runner_offgrid": 1000, "class/non_builtin_bool_side_flag": 40000,
                  "class/offered_to_another_venue_first_and_refused_there": 80000,
-                 "class/pegged_to_the_published_market_price": 16000},
+                 "class/pegged_to_the_published_market_price": 16000,
+                 "class/runner_price_rewritten_by_a_rule_before_acceptance": 2000},
 }
 BATCH = 250
 
@@ -49,7 +51,10 @@ def gen_case(rng, tier, idx):
     if idx % 20 == 19:
         from ..runnerdrive import gen_runner_case
 
-        c = gen_runner_case(rng, tier, profile="matching", style="plain")
+        # every other runner case has a price limit rule on all markets whose band edges lie off the grid (50 ticks
+        # x (1 +- 0.01)): the rule moves far quotes to an off-grid edge BEFORE the market sees them
+        c = gen_runner_case(rng, tier, profile="matching", style="plain", clipped=(idx % 40 == 39))
+        c["hooks_change_prices"] = (idx % 40 == 39)
         for name, v in c["config"].items():
             if isinstance(v, dict) and "program" in v:
                 for w, tpl in v["program"]["actions"]:
@@ -166,14 +171,25 @@ def run_case(case, res):
 
         req = {}
 
+        handed = {}
+
         def sink(ev):
             if ev["k"] == "consult_ret":
                 for o, s in zip(ev["orders"], ev["snaps"]):
                     if "price" in s:
                         req[id(o)] = (o, s)
+            elif ev["k"] == "add_call":
+                handed[id(ev["order"])] = ev["snap"]
             elif ev["k"] == "add_ret":
                 r = req.get(id(ev["order"]))
-                if r is not None and r[1]["price"] is not None:
+                if case.get("hooks_change_prices"):
+                    # an event may have rewritten the price the agent asked for: the price that is moved onto the
+                    # grid is the one handed to the market
+                    r = (ev["order"], handed.get(id(ev["order"]))) if handed.get(id(ev["order"])) else None
+                if r is not None and r[1].get("price") is not None:
+                    q = req.get(id(ev["order"]))
+                    if case.get("hooks_change_prices") and q is not None and q[1].get("price") != r[1]["price"]:
+                        res.count("class/runner_price_rewritten_by_a_rule_before_acceptance")
                     judge(res, ev["mkt"].tick_size, r[1]["price"], r[1]["is_buy"], ev["log"].price, "runner")
                     res.count("class/runner_offgrid")
                     if ev["order"].price != ev["log"].price:
